@@ -117,8 +117,13 @@ def main(argv):
         for a in res.assumptions:
             trusted.append("[%s] %s" % (uname, a))
         lemma_props = res.meta.get("lemma_props", {})
+        status_of = dict((o["id"], o["status"]) for o in res.obligations)
         for ob in res.obligations:
             rec = ob.get("rec")
+            if rec is not None and getattr(rec, "carve_out_of", None) and status_of.get(rec.carve_out_of) == "verified":
+                # carve-out of a known finding: it pins down what the code does WHILE the property-level obligation fails; once that
+                # obligation verifies (the defect is gone) the carve-out has no meaning any more and is not an obligation
+                continue
             if rec is not None:
                 if pid not in rec.properties:
                     continue
